@@ -3,14 +3,19 @@
 
   Only property theorems, their non-vacuity examples and the axiom audit live here.
   Model: Model/Sync.lean (mirror of sync_authorship.rs + the notes helpers of refs.rs, with
-  git's `notes merge -s ours`, `update-ref` and non-forced push as the validated git kernel).
-  Invariant and step lemmas: Lemmas/Sync.lean.
+  git's `notes merge -s ours`, `update-ref`, non-forced push and the loose / packed ref storage
+  as the validated git kernel). Invariant and step lemmas: Lemmas/Sync.lean; storage is
+  irrelevant: Lemmas/SyncStorage.lean. Extracted/SyncRefProbes.lean is regenerated from the
+  Rust sources by extract/sync_ref_probes.py on every run.
 
-  Reading guide. `run σ (init n)` is the state after the op sequence `σ` over `n` clones of
-  one bare remote (`n` and `σ` arbitrary; ops naming a clone `≥ n` do nothing). A ghost log
+  Reading guide. `run P σ (init n)` is the state after the op sequence `σ` over `n` clones of
+  one bare remote (`n` and `σ` arbitrary; ops naming a clone `≥ n` do nothing; `σ` may contain
+  `maintenance i` = `git gc` / `git pack-refs --all` anywhere), `P` being what `ref_exists`
+  answers for an absent / loose / packed ref. A ghost log
   records `(c, i, v)`: commit `c` was made by clone `i`, whose post-commit wrote note `v`.
 -/
 import GitAiModel.Lemmas.Sync
+import GitAiModel.Lemmas.SyncStorage
 import GitAiModel.Extracted.SyncRefProbes
 namespace GitAi.Sync
 
@@ -20,7 +25,8 @@ namespace GitAi.Sync
   loose / a packed ref. Every theorem of sections 2–5 is proved for every `Faithful P`
   (`P` says "exists" exactly for refs that exist, wherever they are stored) and for op
   sequences that contain `Op.maintenance i` (`git gc` / `git pack-refs --all` in clone `i`) and
-  `Op.maintRemote` at arbitrary positions. The code's probe is extracted from refs.rs on every
+  `Op.maintRemote` at arbitrary positions; `storage_irrelevant` says such ops can be deleted
+  from any schedule without changing any value. The code's probe is extracted from refs.rs on every
   run; `extracted_ref_probe` is the obligation that it is faithful, and the `…_code` corollaries
   instantiate the theorems with it. `loose_only_probe_loses_note` is the excluded region: with
   a probe that sees loose refs only, a fetch after a gc replaces the clone's unpushed notes. -/
@@ -370,6 +376,25 @@ theorem convergence_code (n : Nat) (σ : List Op) (hσ : SingleWriter σ) :
     Converged (run codeProbe (σ ++ pushAll n ++ fetchAll n) (init n)) :=
   convergence codeProbe n σ hσ
 
+/-- **storage_irrelevant.** For a faithful probe, deleting every `maintenance` / `maintRemote`
+    op from ANY schedule, started in ANY state, changes nothing but where refs are stored
+    (`State.vals` forgets exactly the three storage fields): same ref values, objects, held
+    commits, counters and ghosts. Repository maintenance is invisible to the sync protocol. -/
+theorem storage_irrelevant (σ : List Op) (s : State) :
+    (run P σ s).vals = (run P (σ.filter (fun op => !op.isMaint)) s).vals :=
+  run_erase_maint σ s
+
+/-- what every repository shows is the same with and without the maintenance ops. -/
+theorem storage_irrelevant_refs (n : Nat) (σ : List Op) :
+    (run P σ (init n)).remote = (run P (σ.filter (fun op => !op.isMaint)) (init n)).remote ∧
+    (run P σ (init n)).clones.map (fun c => (c.loc, c.trk, c.has))
+      = (run P (σ.filter (fun op => !op.isMaint)) (init n)).clones.map (fun c => (c.loc, c.trk, c.has)) := by
+  have h := storage_irrelevant P σ (init n)
+  have h1 := congrArg State.remote h
+  refine ⟨h1, ?_⟩
+  have h2 := congrArg (fun s => s.clones.map (fun c => (c.loc, c.trk, c.has))) h
+  simpa [State.vals, List.map_map, Function.comp_def, Clone.vals] using h2
+
 /-- clone 0 commits and runs `git gc`; clone 1 commits and pushes (the remote's notes ref
     appears); clone 0 fetches. -/
 def gcThenFetch : List Op := [.commit 0, .maintenance 0, .commit 1, .push 1, .fetch 0]
@@ -395,6 +420,13 @@ theorem loose_only_probe_loses_note :
     (let s := run looseOnly (gcThenPush ++ pushAll 2 ++ fetchAll 2) (init 2)
      s.log.map (·.1) = [3, 0] ∧ s.remote.map (fun r => keys r.map) = some [0] ∧
      s.clones.map (fun c => c.loc.map (fun l => keys l.map)) = [some [0], some [0]]) := by
+  decide
+
+/-- `storage_irrelevant` fails for that probe: without the gc the same schedule keeps the note. -/
+example : (run looseOnly (gcThenFetch.filter (fun op => !op.isMaint)) (init 2)).clones.map
+      (fun c => c.loc.map (fun l => keys l.map)) = [some [0, 3], some [3]] ∧
+    (run looseOnly gcThenFetch (init 2)).clones.map (fun c => c.loc.map (fun l => keys l.map))
+      = [some [3], some [3]] := by
   decide
 
 /-- in the terms of the theorems: `no_loss` (a) and `convergence` are false for `looseOnly`. -/
@@ -499,6 +531,8 @@ example : (run gitSees [.push 0] (init 1)).remote = none := by decide
 #print axioms looseOnly_not_faithful
 #print axioms maintenance_values
 #print axioms no_loss_code
+#print axioms storage_irrelevant
+#print axioms storage_irrelevant_refs
 #print axioms convergence_code
 #print axioms loose_only_probe_loses_note
 #print axioms loose_only_probe_violates
